@@ -111,7 +111,8 @@ def mc_pipeline(ctx, quick):
     base = open(os.path.join(core.SPEC, "mc", "MC_Pipeline.cfg")).read()
     runs = [(9, True, None), (5, True, None), (9, False, "Safe"), (6, True, "Safe")]
     if not quick:
-        runs += [(4, True, None), (1, True, None)]
+        # (the `flat` entry is out of reach here: 768 configurations squared times 243 ACLs)
+        runs += [(4, True, None), (2, True, None), (19, True, None), (20, True, None)]
     for (e, protect, must_fail) in runs:
         cfg = os.path.join(ctx.scratch, "pipe_%d_%d.cfg" % (e, protect))
         open(cfg, "w").write(base.replace("Entry = 4", "Entry = %d" % e).replace("Protect = TRUE", "Protect = %s" % str(protect).upper()))
